@@ -185,7 +185,15 @@ def evalImportSets : Nat → State → List ImportSet → List (String × Value)
   | fuel + 1, st, s :: rest, acc =>
     match evalImportSet fuel st s with
     | (.error e, st) => (.error e, st)
-    | (.ok defs, st) => evalImportSets fuel st rest (defs.foldl (fun a p => assocInsert a p.1 p.2) acc)
+    | (.ok defs, st) =>
+      -- one name with two different bindings is an error (`Value: PartialEq`)
+      match defs.foldlM (fun (a : List (String × Value)) p =>
+          match a.lookup p.1 with
+          | some prev => if Prim.derivedEq st.store 100000 prev p.2 then Except.ok (assocInsert a p.1 p.2)
+                         else Except.error ((Err.other, none) : SErr)
+          | none => Except.ok (assocInsert a p.1 p.2)) acc with
+      | .error e => (.error e, st)
+      | .ok acc' => evalImportSets fuel st rest acc'
 
 /-- `eval_library_definition`: a fresh root frame; declarations in order; then the exports -/
 def evalLibraryDef : Nat → State → List LibDecl → Except SErr (List (String × Value)) × State
